@@ -1,10 +1,10 @@
 """C01 - logic-to-polyhedron encoding agrees with evaluation on every assignment."""
 from ..env import np, puan, pg
 from .. import ref, families
-from ..ast import bind, leaves_of, compounds_of, show, is_var
+from ..ast import bind, leaves_of, compounds_of, show, is_var, walk, arith_eval_obj
 
 ID = "C01"
-RULE = ("Mode G: every validated raw model of the families (no pre-fixed compound) -> to_ge_polyhedron(active=True/False) once, "
+RULE = ("Mode G: every validated raw model of the families and every connective formula object built by the real constructors (no pre-fixed compound) -> to_ge_polyhedron(active=True/False) once, "
         "then every in-bounds leaf assignment (region alphabet for 16-bit leaves) -> evaluate_propositions; oracle: rows of the "
         "asserted system hold at the extended assignment <=> evaluated top == 1, rows of the un-asserted system always hold; "
         "evaluated constants also compared with the reference truth function; columns looked up by id and must carry the model's "
@@ -16,12 +16,13 @@ ASSUMPTIONS = [
     "puan_rspy (Rust encoder) is exercised as a black box through the Python layer",
 ]
 BOUNDS = {
-    "quick": "abc|abt|abct explicit, abc generated/root, diamonds explicit+generated, wide/1; d=2,w=2",
+    "quick": "abc|abt|abct explicit, abc generated/root, diamonds explicit+generated, wide/1, mix3; d=2,w=2; connective objects conn2/abc and the negation closure over ab (real Xor/XNor/Imply/Not structures, 3-4 levels)",
     "thorough": "quick + abcdt, abtn, w=3 families on 3 leaves, depth-3 chains",
 }
-QUICK = ["abc/explicit", "abt/explicit", "abct/explicit", "abc/generated", "abc/root", "diamond/explicit", "diamond/generated", "wide/1", "mix3/abtn/explicit"]
+QUICK = ["abc/explicit", "abt/explicit", "abct/explicit", "abc/generated", "abc/root", "diamond/explicit", "diamond/generated", "wide/1", "mix3/abtn/explicit",
+         "conn2/abc/generated", "closure/ab/generated"]
 THOROUGH = QUICK + ["abcdt/explicit", "abtn/explicit", "abu/explicit/w3", "abt/explicit/w3", "d3/abc/explicit", "d3/abt/generated",
-                    "abt/generated", "abt/root", "abcu/explicit"]
+                    "abt/generated", "abt/root", "abcu/explicit", "conn2/abcd/generated", "conn2s/abc/generated", "closure/abc/generated"]
 
 
 def shards(tier):
@@ -59,9 +60,21 @@ def check_model(m, acc, fam, k, only_alpha=None):
     acc.n("models")
     acc.state(m)
     leaves = leaves_of(m)
-    comps = compounds_of(m)
-    idof = {c: b.memo[c].id for c in comps}
-    top_id = idof[m]
+    raw = (m[0] == 'N')
+    if raw:
+        comps = compounds_of(m)
+        idof = {c: b.memo[c].id for c in comps}
+        comp_ids = [idof[c] for c in comps]
+    else:
+        # connective formula: the real structure (Xor/XNor/Imply/Not expand to several AtLeast nodes) defines the node set
+        if is_var(obj):
+            acc.n("skipped_invalid")
+            return
+        comp_ids = [o.id for o in walk(obj).values() if not is_var(o)]
+        if any(o.bounds.constant is not None for o in walk(obj).values() if not is_var(o)):
+            acc.n("skipped_prefixed")
+            return
+    top_id = obj.id
     try:
         (A1, b1, ids1, vars1, P1), (A0, b0, ids0, vars0, P0) = polyhedra(m)
     except BaseException as e:
@@ -71,8 +84,8 @@ def check_model(m, acc, fam, k, only_alpha=None):
     acc.obs(A1.tolist(), b1.tolist(), ids1, A0.tolist(), b0.tolist(), ids0)
     # structural: support column first, column variables carry the model's bounds, every id of the model is a column (top only if not asserted)
     want_bounds = {i: bd for i, bd in leaves.items()}
-    for c in comps:
-        want_bounds[idof[c]] = (0, 1)
+    for ci in comp_ids:
+        want_bounds[ci] = (0, 1)
     for (ids, vars_, P, label) in ((ids1, vars1, P1, "active"), (ids0, vars0, P0, "passive")):
         sv = P.variables[0]
         if not (sv.id == 0 and sv.bounds.as_tuple() == (1, 1)):
@@ -103,12 +116,23 @@ def check_model(m, acc, fam, k, only_alpha=None):
         except BaseException as e:
             acc.violation(None, case, {"what": "evaluate_propositions raised", "exc": repr(e), "model": show(m)})
             continue
-        table = {}
-        expect = ref.truth(m, alpha, None, table)
+        if raw:
+            table = {}
+            expect = ref.truth(m, alpha, None, table)
+            items = [((node[1] if node[0] == 'L' else idof[node]), v) for node, v in table.items()]
+        else:
+            expect = ref.connective(m, alpha)
+            memo = {}
+            o_ref, _ = bind(m)
+            top_arith = arith_eval_obj(o_ref, alpha, memo)
+            items = [(o.id, memo[id(o)]) for o in walk(o_ref).values()]
+            if top_arith != expect:
+                acc.violation(None, case, {"what": "structure built by the constructors does not have the connective's truth value (C04 territory)",
+                                           "model": show(m), "expected": expect, "structure_value": top_arith})
+                continue
         vals = {}
         ok = True
-        for node, v in table.items():
-            i = node[1] if node[0] == 'L' else idof[node]
+        for i, v in items:
             got = res.get(i)
             if got is None or got.as_tuple() != (v, v):
                 acc.violation(None, case, {"what": "evaluated constant differs from the reference truth function (C03 territory, reported here "
